@@ -20,6 +20,12 @@ def views(m, queries, order=None, only=None):
     put('fast-mapping-to-copy', lambda: sorted((m.get_fast_mapping(m.copy()) or {}).items()))
     put('sssr', lambda: [list(r) for r in m.sssr])
     put('components', lambda: [sorted(c) for c in m.connected_components])
+    # the other cached ring views: each one is derived from another (rings_graph from skin_graph, atoms_rings from sssr) and must leave it as it was
+    put('skin_graph', lambda: sorted((n, sorted(ms)) for n, ms in m.skin_graph.items()))
+    put('rings_graph', lambda: sorted((n, sorted(ms)) for n, ms in m.rings_graph.items()))
+    put('atoms_rings', lambda: sorted((n, [list(r) for r in rs]) for n, rs in m.atoms_rings.items()))
+    put('atoms_rings_sizes', lambda: sorted((n, sorted(rs)) for n, rs in m.atoms_rings_sizes.items()))
+    put('skin_graph-again', lambda: sorted((n, sorted(ms)) for n, ms in m.skin_graph.items()))
     put('linear_hash_set', lambda: sorted(m.linear_hash_set(min_radius=1, max_radius=4)))
     put('linear_hash_set-longer-only', lambda: sorted(m.linear_hash_set(min_radius=3, max_radius=4)))
     put('linear_hash_set-again', lambda: sorted(m.linear_hash_set(min_radius=1, max_radius=4)))
